@@ -23,7 +23,8 @@ CONSTANTS Fuel,      \* nesting budget: a symbol deeper than this takes its mini
           Emit
 
 Prods == [
-  Script   |-> << <<"StmtT", "semi">>, <<"StmtT", "semi", "Script">>, <<"StmtT", "semi", "Script">> >>,
+  Script   |-> << <<"StmtT", "semi">>, <<"StmtT", "semi", "Script">>, <<"StmtT", "semi", "Script">>,
+                  <<"StmtT", "go", "Script">>, <<"StmtT", "semi", "go", "Script">> >>,     \* T-SQL batches
   StmtT    |-> << <<"<stmt:SELECT", "Select", ">stmt">>,
                   <<"<stmt:INSERT", "Insert", ">stmt">>,
                   <<"<stmt:UPDATE", "Update", ">stmt">>,
